@@ -28,6 +28,7 @@ func main() {
 	ru := g5lib.NewRunner(r, laws)
 	ru.Run("laws", r.N(len(laws)*300, len(laws)*10000))
 	ru.Report()
+	bigUnsigned(r)
 	pinned(r)
 	r.Finish()
 }
